@@ -136,8 +136,8 @@ def nontrivial(req, obs):
 def finding_key(req, obs, detail):
     """a failure is keyed by the defect class the harness's reference calculators assign
     (`accepted/nested-tail-pad`, `accepted/offsets-only`, `accepted/sizes`, `rejected/nested-tail-pad`,
-    `rejected/sizes`, `accepted/empty-struct`, `accepted/site-sbarr`, ...); known findings are only the two
-    site classes `accepted/site-sbmem` and `accepted/site-sbarr-typedef`."""
+    `rejected/sizes`, `accepted/empty-struct`, `accepted/site-sbarr`, `accepted/site-sbarr-typedef`, ...); the only
+    known finding is the site class `accepted/site-sbmem`."""
     m = re.match(r"FAIL:((?:accepted|rejected)/[a-z-]+)", detail or "")
     if m:
         return m.group(1)
@@ -162,7 +162,7 @@ def search(ctx):
         out.append("{[2 %s]}" % s)
     reqs = ["C19.check\tsb\t" + t for t in out]
     # every kind of use site with a small differing structure, alone and after an agreeing one
-    G = ["sb", "rwsb", "sbc", "sbtd", "sbreg", "sbarr", "rwsbarr", "sbarr2", "sbarru", "sbbl", "sbtdarr"]
+    G = ["sb", "rwsb", "sbc", "sbtd", "sbreg", "sbarr", "rwsbarr", "sbarr2", "sbarru", "sbbl", "sbtdarr", "sbarrtd", "sbarrtd2"]
     F = ["bload", "bload2", "rwbload", "rwbload2", "rwbstore", "rwbstoret", "baload", "rwbaload", "rwbastore", "rwbastoret"]
     W = ["m", "u", "t", "me", "p", "a"]
     sites = G + [f + "." + w for f in F for w in W]
@@ -310,7 +310,7 @@ SPEC = {
         "vector_free_agree",
         "agree_iff_same_size_and_offsets", "rejected_really_differs", "check_complete_fields",
         "collection_sites_covered", "diagnostic_pinned", "property_uses_collected_partial", "check_layout_sound_partial",
-        "check_layout_reports_true_sizes", "typedef_buffer_array_not_validated",
+        "check_layout_reports_true_sizes",
         "check_sound_full", "reported_sizes_true_full", "check_never_panics_full", "no_layout_no_verdict",
         "no_layout_is_unknown", "check_complete_partial",
         "complete_fails_beyond_plain",
@@ -330,14 +330,14 @@ SPEC = {
                   "agreeing bool/matrix-free types are never rejected (completeness is partial: bool / matrix types are always "
                   "'unknown size'); no panic site fires at all (sizes beyond u32 are 'unknown size' since /repo 24ea36f), no "
                   "'unknown size' while sizes fit u32; empty structs (0 bytes in HLSL, 1 in Metal since /repo d25724e) and "
-                  "arrays of structured buffers (collected since /repo d99f90e) are covered by the positive theorems. Two holes "
-                  "remain, reproduced on the real compiler (known findings): an array of a typedef'd array of structured buffers "
-                  "(`typedef StructuredBuffer<S> A[2]; A g[3];`, proved as a negation witness) and a buffer inside a global "
-                  "struct are not collected. The model is compared with the real compile() on "
+                  "arrays of structured buffers (collected since /repo d99f90e + bdddd35, whatever modifiers sit between the "
+                  "array layers) are covered by the positive theorems. One hole remains, reproduced on the real compiler (known "
+                  "finding): a buffer inside a global struct is not collected (the abstract module cannot express it, so the "
+                  "collection theorems are named _partial). The model is compared with the real compile() on "
                   "generated whole programs and the property's own oracle (independent Rust calculators, themselves compared with "
                   "the Lean reference on every run) judges the real verdicts and diagnostics.",
     "rule": "two request kinds. C19.check = (use kind, list of element types) as before. C19.prog = (target vk|dx|msl, pipeline "
-            "mode or not, spelling seed, type table, list of use sites): turned into an RSSL program (19 kinds of global "
+            "mode or not, spelling seed, type table, list of use sites): turned into an RSSL program (20 kinds of global "
             "declaration incl. arrays / typedefs / typedef'd arrays / const / register / bindless / buffer in a struct / "
             "parameter / ConstantBuffer / cbuffer / plain variables; 10 typed Load<T>/Store<T> forms x 12 wrappers: main, "
             "uncalled function, instantiated and uninstantiated function template, struct method, buffer parameter, element "
